@@ -537,6 +537,35 @@ TARGETS = [
                   struct_as={"Self": ["pack_header", "header", "directory_pack_info", "pack_infos", "value_store", "max_id"]},
                   for_lists={"pack_offsets": ("pack_offsets", "Nat")},
                   loop_vars=[("directory_pack_info", "Option PackInfo"), ("pack_infos", "List PackInfo"), ("max_id", "Nat")])),
+    # ---- reader: ContentPack::new and DirectoryPack::new (header, kind, header of the kind, pointer tables)
+    dict(name="contentPackNew", group="Open", file="src/reader/content_pack/mod.rs", fn="new", after=r"impl ContentPack",
+         cfg=dict(params=[("packHeader", "Outcome PackHeader"), ("contentHeader", "Outcome ContentHeader"),
+                          ("tableAt", "Nat → Nat → Nat → Outcome T")],
+                  ret="(PackHeader × ContentHeader)", outcome=True, stateful=False, implicit="{T : Type}", parser="reader",
+                  try_exprs={"reader.parse_block_at(Offset::zero())": "packHeader",
+                             "reader.parse_block_at(Offset::from(PackHeader::BLOCK_SIZE))": "contentHeader",
+                             "ArrayReader::new_memory_from_reader(&reader, header.content_ptr_pos, *header.content_count)": "tableAt 4 (header).contentPtrPos (header).contentCount",
+                             "ArrayReader::new_memory_from_reader(&reader, header.cluster_ptr_pos, *header.cluster_count)": "tableAt 8 (header).clusterPtrPos (header).clusterCount"},
+                  paths={"PackKind::Content": "PackKind.content"}, methods={".magic": "({recv}).kind"},
+                  struct_as={"ContentPack": ["pack_header", "header"]})),
+    dict(name="directoryPackNew", group="Open", file="src/reader/directory_pack/mod.rs", fn="new", after=r"impl DirectoryPack",
+         cfg=dict(params=[("packHeader", "Outcome PackHeader"), ("directoryHeader", "Outcome DirectoryHeader"),
+                          ("tableAt", "Nat → Nat → Nat → Outcome T")],
+                  ret="(PackHeader × DirectoryHeader)", outcome=True, stateful=False, implicit="{T : Type}", parser="reader",
+                  try_exprs={"reader.cut(Offset::zero(), reader.size(), true)": "(Outcome.ok ())",
+                             "reader.parse_block_at(Offset::zero())": "packHeader",
+                             "reader.parse_block_at(Offset::from(PackHeader::BLOCK_SIZE))": "directoryHeader",
+                             "ArrayReader::new_memory_from_reader(&reader, header.value_store_ptr_pos, *header.value_store_count)": "tableAt 8 (header).valueStorePtrPos (header).valueStoreCount",
+                             "ArrayReader::new_memory_from_reader(&reader, header.entry_store_ptr_pos, *header.entry_store_count)": "tableAt 8 (header).entryStorePtrPos (header).entryStoreCount",
+                             "ArrayReader::new_memory_from_reader(&reader, header.index_ptr_pos, *header.index_count)": "tableAt 8 (header).indexPtrPos (header).indexCount"},
+                  paths={"PackKind::Directory": "PackKind.directory"}, methods={".magic": "({recv}).kind"},
+                  struct_as={"DirectoryPack": ["pack_header", "header"]})),
+    dict(name="indexHeaderParse", group="Parse", file="src/reader/directory_pack/index.rs", fn="parse", after=r"impl Parsable for IndexHeader",
+         cfg=dict(params=[("bs", "Bytes")], ret="(Nat × Nat × Nat × List UInt8 × Nat × List UInt8)", outcome=True,
+                  reads={"read_u8": "takeLE bs 1"},
+                  read_calls={"Idx<u32>::parse": "takeLE bs 4", "Count<u32>::parse": "takeLE bs 4", "IndexFreeData::parse": "takeBytes bs 4",
+                              "PString::parse": "takePString bs"},
+                  struct_as={"Self": ["store_id", "entry_count", "entry_offset", "free_data", "index_property", "name"]})),
 ]
 
 
